@@ -59,6 +59,19 @@ func (s tlsScenario) admitted() bool {
 
 const tlsPassword = "tls-secret"
 
+// tlsGarbage: first bytes that are not a TLS ClientHello, each rejected by crypto/tls in a different way (record of a
+// handshake type with a bogus body, SSLv2-style header, oversized record, unknown record version, HTTP, RESP, zeros)
+var tlsGarbage = [][]byte{
+	[]byte("\x16\x03\x01\x00\x05hello-this-is-not-tls\r\n"),
+	{0x80, 0x2e, 0x01, 0x00, 0x02, 0x00, 0x15, 0x00, 0x00, 0x00, 0x10, 0x01, 0x00, 0x80},
+	{0x16, 0x03, 0x01, 0x48, 0x01, 0x01, 0x00, 0x00, 0x00},
+	{0x16, 0x09, 0x09, 0x00, 0x04, 0x01, 0x00, 0x00, 0x00},
+	[]byte("GET / HTTP/1.0\r\n\r\n"),
+	[]byte("*1\r\n$4\r\nPING\r\n"),
+	{0, 0, 0, 0, 0, 0, 0, 0},
+	{0x15, 0x03, 0x03, 0x00, 0x02, 0x02, 0x28},
+}
+
 // setupTLSServer configures the server for a scenario (certificates as PEM bytes; the real NewTLSConfigFrom builds the config).
 func setupTLSServer(cl *cluster, config int, h redis.UserCommandHandler) {
 	p := wl.GetPKI()
@@ -116,7 +129,7 @@ func runC09(t *testing.T, tape *sim.Tape, tier string) *Outcome {
 	setupTLSServer(cl, sc.Config, d)
 	calls := map[string]int{} // by key tag
 	d.OnCall = func(call *wl.Call) {
-		for _, tag := range []string{"faulty", "goodA", "goodB", "probe"} {
+		for _, tag := range []string{"faulty", "goodA", "goodB", "probe", "plainlate"} {
 			if strings.Contains(call.Sig, "key:"+tag) {
 				calls[tag]++
 			}
@@ -127,6 +140,9 @@ func runC09(t *testing.T, tape *sim.Tape, tier string) *Outcome {
 		cl.S.Logf("calls", "%s", call.Sig)
 	}
 	cl.Sticky = tape.Draw(4, "sticky")
+	// a quarter of the runs switch on the scheduling points that the build inserts in front of every lock
+	// acquisition and sync.Map access (interleavings finer than the hand-placed yield points)
+	cl.AutoYields = tape.Draw(4, "autoyields") == 3
 	// simulated time passes at seed-chosen moments between the other events (timeouts, deadlines and timers of the
 	// code under test fire against this clock)
 	for i := tape.Draw(4, "nticks"); i > 0; i-- {
@@ -176,7 +192,7 @@ func runC09(t *testing.T, tape *sim.Tape, tier string) *Outcome {
 			fp := cl.addClient(name, tlsAddr, [][]byte{resp.Cmd("GET", "key:faulty"), resp.Cmd("PING")})
 			faultyPlains = append(faultyPlains, fp)
 		case "garbage":
-			fp := cl.addClient(name, tlsAddr, [][]byte{[]byte("\x16\x03\x01\x00\x05hello-this-is-not-tls\r\n"), {0x80, 0x00, 0xff, 0x00, 0x00}})
+			fp := cl.addClient(name, tlsAddr, [][]byte{tlsGarbage[tape.Draw(len(tlsGarbage), "garbage")], {0x80, 0x00, 0xff, 0x00, 0x00}})
 			faultyPlains = append(faultyPlains, fp)
 		default:
 			ident := identFor(sc.Cred)
@@ -243,6 +259,14 @@ func runC09(t *testing.T, tape *sim.Tape, tier string) *Outcome {
 	goodB := cl.addTLSClient("goodB", tlsAddr, goodCfg(), tlsScript(sc.Config, "goodB"))
 	plain := cl.addClient("plain", plainAddr, [][]byte{resp.Cmd("PING")})
 	plain.Lockstep = true
+	// with rule + password a plain connection can present the password but never a certificate: whatever TLS clients
+	// have done before it, its commands are not executed
+	var plainLate *client
+	if sc.Config == 2 {
+		plainLate = cl.addClient("plainlate", plainAddr, [][]byte{resp.Cmd("AUTH", tlsPassword), resp.Cmd("GET", "key:plainlate")})
+		plainLate.Lockstep = true
+		plainLate.DialAfter = func() bool { return goodA.Finished }
+	}
 	gate := func() bool { return true }
 	switch sc.Position {
 	case 0: // faulty first
@@ -310,6 +334,9 @@ func runC09(t *testing.T, tape *sim.Tape, tier string) *Outcome {
 	if len(o.Viol) == 0 && calls["before-auth"] > 0 {
 		o.violate(fmt.Sprintf("c09:command-executed-before-auth:config%d", sc.Config), "%s: %d handler calls were made on TLS connections that had not sent AUTH yet", where, calls["before-auth"])
 	}
+	if len(o.Viol) == 0 && calls["plainlate"] > 0 {
+		o.violate("c09:command-executed-for-plain-client-under-rule", "%s: a plain connection that presented the password (but cannot present a certificate) got %d commands executed after TLS clients had authenticated", where, calls["plainlate"])
+	}
 	// 2. containment: the well-behaved clients of the run were served
 	if len(o.Viol) == 0 {
 		for _, g := range []*tlsClient{goodA, goodB} {
@@ -340,7 +367,7 @@ func runC09(t *testing.T, tape *sim.Tape, tier string) *Outcome {
 					t := t
 					acts = append(acts, sim.Action{Key: "run", Do: func() { cl.S.Release(t) }})
 				}
-				if c.P != nil && (t.Name == fmt.Sprintf("c%d", c.P.ID) || taskObjPipe(t) == c.P.ID) {
+				if c.P != nil && (t.Name == fmt.Sprintf("c%d", c.P.ID) || taskObjPipe(t) == c.P.ID || anonymous(t)) {
 					t := t
 					acts = append(acts, sim.Action{Key: "run", Do: func() { cl.S.Release(t) }})
 				}
@@ -363,6 +390,7 @@ func runC09(t *testing.T, tape *sim.Tape, tier string) *Outcome {
 	o.Sched = fmt.Sprintf("%d|%x", si, hash64(strings.Join(o.Log, "\n")))
 	o.Nontrivial = true
 	_ = faulty
+	_ = plainLate
 	o.Sample = map[string]any{"scenario": where, "admitted_expected": sc.admitted(), "handler_calls_by_client": calls, "steps": o.Steps}
 	return o
 }
